@@ -257,3 +257,12 @@ func mixFamily(w *vx.W, maxLen int) {
 		return true
 	})
 }
+
+func init() {
+	const t = " Shared mix family: all words up to length 3 (quick) / 4 (thorough) over {define(l, one of 12 shapes), data(l), compressed data(l)} for two local types — both byte orders, timestamp first / in the middle / absent, zero-field and developer-field definitions, an unknown message, unknown fields in a known message, signed, array and local-time fields, a message the file type does not host, a second file_id — each word also followed by a probe of every defined local type; the decoded File is compared message by message and field by field with a complete reference decoder (independent parser + value model + timestamp machine + reflection-derived router)."
+	for _, id := range []string{"C02", "C03", "C12", "C13"} {
+		vx.AppendRule(id, t)
+	}
+	vx.AppendRule("C16", " Generic form: counters derived from the independent parser and content from the reference decoder, over the mix words (length <=2 quick / <=3 thorough), the shared streams and every device file of the corpus, under all 8 option sets.")
+	vx.AppendRule("C10", " Chains of mix-family files: every ordered pair of words (length <=1 quick / <=2 thorough) and every triple of the short words through DecodeChained, each returned File against the reference decoder's prediction for that member alone; Decode of the chain must consume exactly the first member.")
+}
